@@ -263,10 +263,29 @@ class STuple(SV):      # a small heterogeneous tuple of known length (e.g. `retu
     ty: Any = "tuple"
 
 
+Obj = z3.DeclareSort("Obj")      # identity of objects whose class is not modelled
+
+
 @dataclass
-class SOpaqueObj(SV):  # an object whose class is not modelled (MultiTensor, callables, tensors): every
-    name: str          # operation on it yields a fresh opaque value (or the type its contract declares)
-    ty: Any = "opaque"
+class SOpaqueObj(SV):  # an object whose class is not modelled (MultiTensor, callables, tensors): calls on it
+    name: str          # yield fresh values; attribute reads, `in` and len are uninterpreted functions of its
+    ty: Any = "opaque" # identity `t`, hence deterministic
+    t: Any = None
+
+    def ident(self):
+        if self.t is None:
+            self.t = fresh("obj", Obj)
+        return self.t
+
+
+_obj_fns: Dict[str, Any] = {}
+
+
+def obj_fn(name, *sorts):
+    key = name + ":" + ",".join(str(x) for x in sorts)
+    if key not in _obj_fns:
+        _obj_fns[key] = z3.Function(key, *sorts)
+    return _obj_fns[key]
 
 
 def unpack_seq(elem_ty, term) -> SSeq:
